@@ -1066,6 +1066,7 @@ def replay(path):
 
 def warm():
     C.build_harness('c14_hola', C.LIBS, FLAVOR)
+    C.build_harness('c14_compass', C.LIBS, 'plain')
     C.ocaml_build('c14', 'C14.v', 'c14_driver.ml', 'c14_model.ml')
 
 
